@@ -155,13 +155,14 @@ type podState struct {
 
 // World is one instantiated run.
 type World struct {
-	run   *kit.Run
-	sc    *Scenario
-	cfg   *Config
-	cloud *Cloud
-	api   *kit.SimAPI
-	pods  []*podState
-	dir   string
+	k1Victim map[string]bool // pods whose address was unassigned from under them through known finding K1
+	run      *kit.Run
+	sc       *Scenario
+	cfg      *Config
+	cloud    *Cloud
+	api      *kit.SimAPI
+	pods     []*podState
+	dir      string
 
 	// daemon instance
 	gen      int
@@ -574,7 +575,7 @@ func (NodeWorld) Run(t *testing.T, scAny any, chooser simrt.Chooser, keepLog boo
 	defer os.RemoveAll(dir)
 	maxSteps := 400_000
 	res := kit.Execute(t, chooser, keepLog, maxSteps, func(run *kit.Run) {
-		w := &World{run: run, sc: sc, cfg: &sc.Cfg, dir: dir, faultIdx: map[string]int{}, faultPlan: map[string]string{}}
+		w := &World{run: run, sc: sc, cfg: &sc.Cfg, dir: dir, faultIdx: map[string]int{}, faultPlan: map[string]string{}, k1Victim: map[string]bool{}}
 		w.main()
 	})
 	closeDBs()
